@@ -520,6 +520,18 @@ def lookalike_family():
     yield ("F/dropout/custom.Dropout", _model(nodes, [I0], Y, [_const("ratio", np.array(0.5, np.float32)), _const("tm_true", np.array(True))], functions=[fn]))
 
 
+def forest_self_inverse_family():
+    """a self-inverse Transpose that is both an input of an elementwise/Add forest and a consumer of it (the pass removed it twice)"""
+    for mid in ("Relu", "Tanh"):
+        for tail in ("Add", "Mul"):
+            nodes = [H.make_node("Transpose", ["in_0"], ["a"], perm=[1, 0], name="TA"), H.make_node(mid, ["a"], ["s"], name="Mid"),
+                     H.make_node("Transpose", ["s"], ["u"], perm=[1, 0], name="TU"), H.make_node(tail, ["s", "u"], ["m"], name="Tail"),
+                     H.make_node("Transpose", ["m"], ["y"], perm=[1, 0], name="TY")]
+            for outs in (["y"], ["y", "u"], ["y", "s"]):
+                yield (f"M/forest_self_inverse/{mid}/{tail}/outs={','.join(outs)}",
+                       _model(nodes, [_vi("in_0", F, [2, 2])], [_vi(o, F, [2, 2]) for o in outs]))
+
+
 def side_rank_family():
     """Reshape -> binary elementwise op with a ONE-ELEMENT constant of rank 0..3 -> Reshape back: folding the pair is only
     right when the constant's rank does not exceed the source rank (numpy broadcasting left-pads otherwise)"""
@@ -537,5 +549,5 @@ def side_rank_family():
 
 
 def all_graphs():
-    for fam in (lookalike_family, side_rank_family, misc_family, multi_family, capture_family, table_ops_family, cast_family, reshape_family, transpose_family):
+    for fam in (lookalike_family, side_rank_family, forest_self_inverse_family, misc_family, multi_family, capture_family, table_ops_family, cast_family, reshape_family, transpose_family):
         yield from fam()
